@@ -16,8 +16,15 @@ pub fn cases(t: Tier) -> u64 {
 }
 
 /// With a strand lost (F5) answers can only disappear: is `retry` explained by `fresh` minus some answers?
-fn only_lost_answers(retry: &Option<Solution<I>>, fresh: &Option<Solution<I>>) -> bool {
+fn only_lost_answers(l: &Loaded, retry: &Option<Solution<I>>, fresh: &Option<Solution<I>>) -> bool {
+    use chalk_ir::Canonical;
     match (fresh, retry) {
+        // the general answer was lost, a more specific one remains: the retry's substitution is an instance of the fresh one
+        (Some(Solution::Unique(f)), Some(Solution::Unique(a))) => {
+            let fs = Canonical { binders: f.binders.clone(), value: f.value.subst.clone() };
+            let asub = Canonical { binders: a.binders.clone(), value: a.value.subst.clone() };
+            matches!(crate::props::c04::is_instance_of_pub(&asub, &fs, &*l.program), Ok(true))
+        }
         (Some(_), None) => true,
         (Some(Solution::Ambig(_)), Some(Solution::Unique(_))) => true,
         (Some(Solution::Ambig(Guidance::Unknown)), Some(Solution::Ambig(_))) => true,
@@ -107,8 +114,9 @@ pub fn run(ctx: &Ctx, out: &mut CaseOut) {
                         }
                         Outcome::Budget => continue,
                     }
-                    let strand_lost = is_slg && log.iter().any(|e| e.panicking && !e.top_strand_restored);
-                    out.count(&format!("crash:{}:{}", solver_name(&choice), if !is_slg { "n/a" } else if log.is_empty() { "stack-empty-at-unwind" } else if strand_lost { "in-flight-strand-lost" } else { "strand-restored" }));
+                    let strand_lost = is_slg && log.iter().any(|e| e.panicking && !e.top_strand_restored && !e.in_flight_restored);
+                    let requeued = is_slg && log.iter().any(|e| e.panicking && e.in_flight_restored);
+                    out.count(&format!("crash:{}:{}", solver_name(&choice), if !is_slg { "n/a" } else if log.is_empty() { "stack-empty-at-unwind" } else if strand_lost { "mid-step:strand-already-handed-on" } else if requeued { "mid-step:in-flight-strand-requeued" } else { "between-steps:active-strand-restored" }));
                     // optionally a second injected fault during the retry
                     let second = ctx.tier == Tier::Thorough && n % 5 == 0;
                     if second {
@@ -118,9 +126,18 @@ pub fn run(ctx: &Ctx, out: &mut CaseOut) {
                         let _ = chalk_engine::verif::take_unwind_log();
                         out.count("second-fault-injected-during-retry");
                     }
+                    // control: the same sequence of goals on a solver that never crashed (separates the effect of the
+                    // crash from plain history dependence, which is C10's subject)
+                    let seq = [gi, (gi + 1) % w.goals.len(), (gi + 2) % w.goals.len()];
+                    let control: Vec<Option<Outcome>> = {
+                        let cdb = FaultDb::new(&*l.program, solver_name(&choice));
+                        cdb.budget.set(3_000_000);
+                        let mut cs = choice.into_solver();
+                        seq.iter().map(|&gj| peeled[gj].as_ref().map(|pj| solve(&mut *cs, &cdb, &pj.goal))).collect()
+                    };
                     // retry the same goal and a sibling on the same solver instance
                     let mut all_ok = true;
-                    for &gj in &[gi, (gi + 1) % w.goals.len(), (gi + 2) % w.goals.len()] {
+                    for (si, &gj) in seq.iter().enumerate() {
                         let (pj, (fj, _)) = match (&peeled[gj], &clean[gj]) {
                             (Some(p), Some(c)) => (p, c),
                             _ => continue,
@@ -140,19 +157,30 @@ pub fn run(ctx: &Ctx, out: &mut CaseOut) {
                         };
                         match o2 {
                             Outcome::Answer(a) => {
+                                if &a != fj && !second && matches!(&control[si], Some(Outcome::Answer(c)) if c == &a) {
+                                    out.count("differs-from-fresh-but-equals-uncrashed-solver-with-same-history(C10's subject)");
+                                    continue;
+                                }
                                 if &a != fj {
                                     all_ok = false;
-                                    // a lost strand can only lose answers of its table; through a negative literal a lost answer flips the
-                                    // outer result, so for goals containing `not` both directions are explained
-                                    let through_negation = w.goals[gj].2.as_ref().map_or(false, crate::model::goal_has_not);
-                                    let sig = if strand_lost && !second && (only_lost_answers(&a, fj) || through_negation) { Some("slg:in-flight-strand-lost") } else { None };
+                                    // F12: a re-queued strand is not necessarily at its old queue position, and whether a
+                                    // goal with an unconstrained unknown is answered `Unique [?0 := ^0]` or `Ambiguous` depends
+                                    // on strand order even without any crash
+                                    let trivial = |s: &Option<Solution<I>>| matches!(s, Some(Solution::Unique(c)) if !c.value.subst.is_empty(chalk_integration::interner::ChalkIr) && c.value.subst.is_identity_subst(chalk_integration::interner::ChalkIr));
+                                    let ambig = |s: &Option<Solution<I>>| s.as_ref().map_or(false, |s| s.is_ambig());
+                                    let sig = if is_slg && requeued && ((trivial(&a) && ambig(fj)) || (trivial(fj) && ambig(&a))) { Some("slg:trivial-answer-green-cut-order") } else { None };
+                                    let _ = only_lost_answers;
                                     out.violation(sig, format!("{}: after a callback panic at call {}, solving `{}` on the same solver gives `{}`; a fresh solver gives `{}`", solver_name(&choice), n, w.goals[gj].0, disp(&a), disp(fj)), d(&disp(&a)));
                                     break;
                                 }
                             }
+                            Outcome::Panic(_) if !second && matches!(&control[si], Some(Outcome::Panic(_))) => {
+                                out.count("retry-panics-like-uncrashed-solver-with-same-history(C09/C10's subject)");
+                            }
                             Outcome::Panic(m) => {
                                 all_ok = false;
-                                out.violation(None, format!("{}: after a callback panic at call {}, the next solve on the same solver panics: {}", solver_name(&choice), n, crate::case::truncate(&m, 120)), d(&format!("PANIC {}", m)));
+                                let sig = crate::common::panic_signature(solver_name(&choice), &m, w.goals[gj].2.as_ref(), Some(&w.prog));
+                                out.violation(sig.as_deref(), format!("{}: after a callback panic at call {}, the next solve on the same solver panics: {}", solver_name(&choice), n, crate::case::truncate(&m, 120)), d(&format!("PANIC {}", m)));
                                 break;
                             }
                             _ => {}
